@@ -345,3 +345,18 @@ MUTANTS["C07"] = [
     M("twin-if-if-chain", AGM, "        elif flags & self.INTEGER:\n            if flags & self.FLOAT:\n                raise ValueError(\n                    \"The argument flags INTEGER and FLOAT cannot be combined.\"\n                )",
       "        if flags & self.INTEGER and flags & self.FLOAT:\n            raise ValueError(\n                \"The argument flags INTEGER and FLOAT cannot be combined.\"\n            )", twin=True),
 ]
+
+QST = "src/clikit/ui/components/question.py"
+CHQ = "src/clikit/ui/components/choice_question.py"
+
+MUTANTS["C18"] = [
+    M("f12-regression", QST, "            answer = interviewer()\n\n            try:\n                return self._validator(answer)\n", "            try:\n                return self._validator(interviewer())\n", expect="C18-R1"),
+    M("validator-returns-typed-text", CHQ, "                    if 0 <= value < len(self._values):\n                        result = self._values[value]", "                    if 0 <= value < len(self._values):\n                        result = value", expect="C18-R2"),
+    M("sentinel-not-rejected", CHQ, "            if result is False:\n                raise ValueError(self._question.error_message.format(value))\n\n", "", expect="C18-R2"),
+    M("prompt-before-interactive-test", QST, "        if not io.is_interactive():\n            return self.default\n\n        if not self._validator:", "        self._write_prompt(io)\n        if not io.is_interactive():\n            return self.default\n\n        if not self._validator:", expect="C18-R3"),
+    M("interactive-test-removed", QST, "        if not io.is_interactive():\n            return self.default\n\n", "", expect="C18-R3"),
+    M("decrement-on-both-paths", QST, "            if attempts is not None:\n                attempts -= 1\n", "            if attempts is not None:\n                attempts -= 1\n\n            if attempts:\n                attempts -= 1\n", expect="C18-R4"),
+    M("no-decrement", QST, "            if attempts is not None:\n                attempts -= 1\n", "", expect="C18-R4"),
+    M("error-printed-twice", QST, "            if error is not None:\n                self._write_error(io, error)\n", "            if error is not None:\n                self._write_error(io, error)\n                self._write_error(io, error)\n", expect="C18-R4"),
+    M("twin-interactive-local", QST, "        if not io.is_interactive():\n            return self.default\n", "        interactive = io.is_interactive()\n        if not interactive:\n            return self.default\n", twin=True),
+]
